@@ -49,6 +49,7 @@ func ProdBytes(from, to int64) []byte {
 type ProdUnit struct {
 	workceptor.BaseWorkUnit
 	startOnce sync.Once
+	stopped   chan struct{} // closed when the producer goroutine has ended (nil if it never started)
 }
 
 func NewProdUnit(_ workceptor.BaseWorkUnitForWorkUnit, w *workceptor.Workceptor, unitID string, workType string) workceptor.WorkUnit {
@@ -72,8 +73,29 @@ func (u *ProdUnit) Start() error {
 	}
 	u.UpdateBasicStatus(workceptor.WorkStateRunning, "Running", 0)
 	go u.MonitorLocalStatus()
-	go u.run(prog)
+	u.stopped = make(chan struct{})
+	go func() {
+		defer close(u.stopped)
+		u.run(prog)
+	}()
 	return nil
+}
+
+// stopProducer cancels the producer and waits (bounded) until it no longer touches the unit directory.
+func (u *ProdUnit) stopProducer() {
+	u.GetCancel()()
+	if u.stopped != nil {
+		select {
+		case <-u.stopped:
+		case <-time.After(5 * time.Second):
+		}
+	}
+}
+
+// Release implies Cancel, as for every real work type: nothing may write into the directory while it is removed.
+func (u *ProdUnit) Release(force bool) error {
+	u.stopProducer()
+	return u.BaseWorkUnit.Release(force)
 }
 
 func (u *ProdUnit) run(prog ProdProgram) {
@@ -118,7 +140,7 @@ func (u *ProdUnit) Restart() error {
 }
 
 func (u *ProdUnit) Cancel() error {
-	u.GetCancel()()
+	u.stopProducer()
 	st := u.Status()
 	if !workceptor.IsComplete(st.State) {
 		u.UpdateBasicStatus(workceptor.WorkStateCanceled, "Canceled", -1)
